@@ -3,12 +3,19 @@ package main
 import (
 	"fmt"
 	"go/ast"
+	"go/parser"
+	"go/token"
+	"os"
+	"path/filepath"
 	"regexp"
+	"sort"
 	"strings"
 )
 
-// ShutdownIR: the four shutdown() functions, the four UDP read loops and main() of package vflow
-// as ordered abstract steps (C15). Fail closed: an unrecognised statement becomes `.unrecognised "<go>"`.
+// ShutdownIR: the four shutdown() functions, the four UDP read loops (the loop body and every
+// statement of run() that follows the loop) and main() of package vflow as ordered abstract steps,
+// plus every send on and every close of a UDP work queue anywhere in package vflow (C15).
+// Fail closed: an unrecognised statement becomes `.unrecognised "<go>"`.
 func init() { generators = append(generators, genShutdownIR) }
 
 var shutdownSrcs = []struct{ lean, file, recv string }{
@@ -74,26 +81,59 @@ func genShutdownIR(repo string) (genFile, error) {
 			}
 		}
 		fmt.Fprintf(&b, "/-- %s.shutdown in %s -/\ndef %sShutdown : List SStep := [%s]\n\n", s.recv, s.file, s.lean, strings.Join(steps, ", "))
-		// the read loop: the `for !x.stop { … }` statement of run()
+		// the read loop: the `for !x.stop { … }` statement of run(), and every statement of run() after it
 		var rsteps []string
+		after := []string{}
 		cond := ""
+		nloops := 0
+		queue := "" // the channel the loop sends on
 		if rd := funcDecl(f, s.recv, "run"); rd != nil {
 			for _, st := range rd.Body.List {
 				if fs, ok := st.(*ast.ForStmt); ok && fs.Init == nil && fs.Post == nil && fs.Cond != nil && strings.HasSuffix(src(fset, fs.Cond), ".stop") {
+					nloops++
 					cond = src(fset, fs.Cond)
+					rsteps, after = nil, []string{}
 					for _, bs := range fs.Body.List {
-						rsteps = append(rsteps, classify(src(fset, bs), rdTable))
+						t := src(fset, bs)
+						if m := reEnq.FindStringSubmatch(t); m != nil {
+							queue = m[1]
+						}
+						rsteps = append(rsteps, classify(t, rdTable))
 					}
+					continue
+				}
+				if nloops == 0 {
+					continue // set-up before the loop (listener, workers, producer): not part of the stop protocol
+				}
+				t := src(fset, st)
+				switch m := reCloseQ.FindStringSubmatch(t); {
+				case m != nil && m[1] == queue:
+					after = append(after, ".closeQueue")
+				case m != nil:
+					after = append(after, ".unrecognised "+leanStr(t+" (the loop sends on "+queue+")"))
+				default:
+					after = append(after, classify(t, []struct {
+						re   *regexp.Regexp
+						name string
+					}{{reLog, "log"}}))
 				}
 			}
 		}
-		if cond == "" || !strings.HasPrefix(cond, "!") {
-			rsteps = append([]string{".unrecognised " + leanStr("loop condition "+cond)}, rsteps...)
+		if cond == "" || !strings.HasPrefix(cond, "!") || nloops != 1 {
+			rsteps = append([]string{".unrecognised " + leanStr(fmt.Sprintf("%d stop loops, condition %s", nloops, cond))}, rsteps...)
 		} else {
 			rsteps = append([]string{".whileNotStop"}, rsteps...)
 		}
 		fmt.Fprintf(&b, "/-- the UDP read loop of %s.run -/\ndef %sReadLoop : List RStep := [%s]\n\n", s.recv, s.lean, strings.Join(rsteps, ", "))
+		fmt.Fprintf(&b, "/-- the statements of %s.run after the read loop -/\ndef %sAfterLoop : List RStep := [%s]\n\n", s.recv, s.lean, strings.Join(after, ", "))
 	}
+	// every send on / close of a UDP work queue in package vflow (non-test files), by enclosing function
+	sends, closes, err := queueUsers(repo)
+	if err != nil {
+		return genFile{}, err
+	}
+	fmt.Fprintf(&b, "/-- every send statement on a UDP work queue in package vflow: (function, channel) -/\ndef queueSenders : List (String × String) := [%s]\n\n", strings.Join(sends, ", "))
+	fmt.Fprintf(&b, "/-- every `close` of a UDP work queue in package vflow: (function, channel) -/\ndef queueClosers : List (String × String) := [%s]\n\n", strings.Join(closes, ", "))
 	// main(): what happens around the signal
 	fset, f, err := parseFile(repo, "vflow/vflow.go")
 	if err != nil {
@@ -132,4 +172,80 @@ func genShutdownIR(repo string) (genFile, error) {
 	fmt.Fprintf(&b, "/-- main() of vflow/vflow.go (set-up statements without synchronisation omitted) -/\ndef mainSteps : List MStep := [%s]\n", strings.Join(msteps, ", "))
 	b.WriteString(footer("ShutdownIR"))
 	return genFile{"ShutdownIR", b.String()}, nil
+}
+
+var reUDPCh = regexp.MustCompile(`UDPCh$`)
+
+// queueUsers lists, for every non-test file of package vflow, each send statement whose channel is
+// named …UDPCh and each call close(…UDPCh) (also inside function literals, defers and go statements),
+// as Lean pairs ("Recv.func", "channel"), sorted. Anything that passes such a channel on by name
+// (an argument, an assignment from or to it) is listed among the closers as ("Recv.func", "escapes: <go>").
+func queueUsers(repo string) (sends, closes []string, err error) {
+	files, err := filepath.Glob(filepath.Join(repo, "vflow", "*.go"))
+	if err != nil {
+		return nil, nil, err
+	}
+	sort.Strings(files)
+	for _, path := range files {
+		if strings.HasSuffix(path, "_test.go") {
+			continue
+		}
+		if _, e := os.Stat(path); e != nil {
+			return nil, nil, e
+		}
+		fset := token.NewFileSet()
+		f, e := parser.ParseFile(fset, path, nil, 0)
+		if e != nil {
+			return nil, nil, e
+		}
+		for _, d := range f.Decls {
+			fd, ok := d.(*ast.FuncDecl)
+			if !ok || fd.Body == nil {
+				continue
+			}
+			name := fd.Name.Name
+			if fd.Recv != nil && len(fd.Recv.List) == 1 {
+				t := fd.Recv.List[0].Type
+				if st, ok := t.(*ast.StarExpr); ok {
+					t = st.X
+				}
+				name = src(fset, t) + "." + name
+			}
+			pair := func(a, c string) string { return "(" + leanStr(a) + ", " + leanStr(c) + ")" }
+			ast.Inspect(fd.Body, func(n ast.Node) bool {
+				switch x := n.(type) {
+				case *ast.SendStmt:
+					if id, ok := x.Chan.(*ast.Ident); ok && reUDPCh.MatchString(id.Name) {
+						sends = append(sends, pair(name, id.Name))
+					}
+				case *ast.CallExpr:
+					fn, isId := x.Fun.(*ast.Ident)
+					for _, a := range x.Args {
+						id, ok := a.(*ast.Ident)
+						if !ok || !reUDPCh.MatchString(id.Name) {
+							continue
+						}
+						switch {
+						case isId && fn.Name == "close" && len(x.Args) == 1:
+							closes = append(closes, pair(name, id.Name))
+						case isId && (fn.Name == "len" || fn.Name == "cap") && len(x.Args) == 1:
+							// queue length for the statistics and the dynamic-worker heuristic
+						default:
+							closes = append(closes, pair(name, "escapes: "+src(fset, x)))
+						}
+					}
+				case *ast.AssignStmt:
+					for _, r := range append(append([]ast.Expr{}, x.Rhs...), x.Lhs...) {
+						if id, ok := r.(*ast.Ident); ok && reUDPCh.MatchString(id.Name) {
+							closes = append(closes, pair(name, "escapes: "+src(fset, x)))
+						}
+					}
+				}
+				return true
+			})
+		}
+	}
+	sort.Strings(sends)
+	sort.Strings(closes)
+	return sends, closes, nil
 }
